@@ -104,7 +104,11 @@ func (f *IPv4Filter) Remove(cidr *net.IPNet) error {
 func (f *IPv4Filter) Contains(ip net.IP) bool {
 	if f.matchAll.Load() {
 		return true
-	} else if len(ip) != net.IPv4len {
+	}
+	if len(ip) == net.IPv6len {
+		ip = ip.To4() // 16-byte form of an IPv4 address, e.g. from net.ParseIP
+	}
+	if len(ip) != net.IPv4len {
 		return false
 	}
 
